@@ -376,6 +376,20 @@ reg(
 )
 
 reg(
+    "C10",
+    "translation_validation",
+    "NUMFMT evaluates the crate's number spelling functions from MIR: format_number_jq_compat on a family of decimal literals of every shape (integers, decimals, "
+    "e/E exponents with and without sign and leading zeros, magnitudes from 5e-324 to 1.8e308, 30-digit mantissas, leading zeros and `+`): the result must be JSON number "
+    "syntax with the literal's value as a double; jq_bare_float_display and the yq spellings format_float_yq / _yaml / _yaml_nested / format_float_with_fraction on finite "
+    "doubles (powers of ten and two, around 2^53 and 2^63, subnormals, extremes, pseudo-random bit patterns): the text must parse back to exactly the same double; "
+    "format_int on boundary integers. std's shortest-round-trip digit generation is modelled (Python's repr implements the same contract): the crate's logic around it is "
+    "what is decided. A family, not all doubles or literals.",
+    [only_cfgs(_lazy("numfmt", "rule_numbers"), ["cli"])],
+    quick=["cli"],
+    technique="finite-domain evaluation of number-formatting MIR over literal and double families vs parse-back equality",
+)
+
+reg(
     "C27",
     "translation_validation",
     "Only the JSON-output clause on YAML input, at the library's two printing entry points: for the cursors a navigation program yields (each document, its "
